@@ -158,8 +158,44 @@ RenderAll(st, acc) ==
        RenderAll(Tail(st), [lines |-> acc.lines \o r.lines, sig |-> acc.sig \o r.sig, els |-> Append(acc.els, [kind |-> r.kind, el |-> r.el])])
 ElsOf(els, kind) == LET idx == {j \in 1..Len(els) : els[j].kind = kind} IN
                     [m \in 1..Cardinality(idx) |-> els[CHOOSE j \in idx : Cardinality({i \in idx : i < j}) = m - 1].el]
-RenderLines(st) ==
-  LET r == RenderAll(st, [lines |-> <<Text, Blank>>, sig |-> <<NoSig, NoSig>>, els |-> <<>>])
+\* ---- layouts: where the type fields stand -------------------------------------------------------------------------
+\* "adjacent": every `:type x:` / `:vartype x:` / `:rtype:` line next to its field (before or after it, per item: RenderField);
+\* "types-last" / "types-first": all description fields together and all type fields together, after / before them - the fields of
+\* different things interleave (a parameter and an attribute may have the same name: their type fields must not be confused)
+TypedByField(f) == f.kind # "raises" /\ f.it.ty \in {"field", "before"}
+MainLine(f) == CASE f.kind = "returns" -> Field("returns", "bare", "-")
+                 [] f.it.ty = "inline" /\ f.kind = "parameters" -> Field("param", "typed", f.it.name)
+                 [] OTHER -> Field(MainFieldOf(f.kind), "name", f.it.name)
+TypeLine(f) == IF f.kind = "returns" THEN Field("rtype", "bare", "-") ELSE Field(TypeFieldOf(f.kind), "name", f.it.name)
+RECURSIVE MainLen(_)
+MainLen(st) == IF st = <<>> THEN 0 ELSE 1 + Len(DescCont(Head(st).it.shape)) + MainLen(Tail(st))
+NTyped(st) == Cardinality({j \in 1..Len(st) : TypedByField(st[j])})
+RECURSIVE RenderSplit(_, _, _, _, _)
+RenderSplit(st, base, tbase, tcount, acc) ==      \* description fields from line `base` on, the k-th type field on line tbase + k
+  IF st = <<>> THEN acc
+  ELSE LET f == Head(st) it == f.it dl == DescCont(it.shape) typed == TypedByField(f)
+           ann == CASE f.kind = "raises" -> "inline" [] it.ty = "inline" -> "inline" [] typed -> "field" [] OTHER -> IF it.sann THEN "sig" ELSE "none"
+           el == [first |-> base, body |-> SeqFromTo(base + 1, base + Len(dl)), name |-> IF f.kind = "returns" THEN "" ELSE it.name, ann |-> ann,
+                  tf |-> IF typed THEN tbase + tcount ELSE -1, dflt |-> IF f.kind = "parameters" /\ it.sdef THEN "sig" ELSE "none"]
+       IN RenderSplit(Tail(st), base + 1 + Len(dl), tbase, tcount + (IF typed THEN 1 ELSE 0),
+                      [mains |-> acc.mains \o <<MainLine(f)>> \o dl,
+                       msig |-> acc.msig \o <<[ann |-> it.sann, def |-> it.sdef]>> \o [j \in 1..Len(dl) |-> NoSig],
+                       types |-> IF typed THEN Append(acc.types, TypeLine(f)) ELSE acc.types,
+                       els |-> Append(acc.els, [kind |-> f.kind, el |-> el])])
+RenderLaidOut(st, layout) ==
+  LET last == layout = "types-last"
+      nt == NTyped(st)
+      r == RenderSplit(st, IF last THEN 2 ELSE 2 + nt, IF last THEN 2 + MainLen(st) ELSE 2, 0, [mains |-> <<>>, msig |-> <<>>, types |-> <<>>, els |-> <<>>])
+      tsig == [j \in 1..nt |-> NoSig]
+  IN [lines |-> <<Text, Blank>> \o (IF last THEN r.mains \o r.types ELSE r.types \o r.mains),
+      sig |-> <<NoSig, NoSig>> \o (IF last THEN r.msig \o tsig ELSE tsig \o r.msig), els |-> r.els]
+\* a split layout only differs from the adjacent one when at least two things have a type field; "before" / "field" then only say
+\* that the type is written in a type field (normalised to one of them per layout)
+LayoutOK(st, layout) ==
+  layout = "adjacent" \/ (/\ NTyped(st) >= 2
+                          /\ \A j \in 1..Len(st) : st[j].it.ty # (IF layout = "types-last" THEN "before" ELSE "field"))
+RenderLines(st, layout) ==
+  LET r == IF layout = "adjacent" THEN RenderAll(st, [lines |-> <<Text, Blank>>, sig |-> <<NoSig, NoSig>>, els |-> <<>>]) ELSE RenderLaidOut(st, layout)
       sec(kind) == IF ElsOf(r.els, kind) = <<>> THEN <<>> ELSE <<SecRec(kind, <<>>, ElsOf(r.els, kind))>>
   IN [lines |-> r.lines, sig |-> r.sig,
       expect |-> <<SecRec("text", <<0>>, <<>>)>> \o sec("parameters") \o sec("attributes") \o sec("returns") \o sec("raises")]
@@ -175,8 +211,9 @@ InitSeq ==
   /\ SeqLines
   /\ sig = [j \in 1..Len(lines) |-> NoSig] /\ expect = <<>> /\ pcand = Parents
 InitStruct ==
-  \E st \in Structs : /\ StructOK(st)
-                      /\ LET r == RenderLines(st) IN lines = r.lines /\ sig = r.sig /\ expect = r.expect
+  \E st \in Structs, layout \in {"adjacent", "types-last", "types-first"} :
+                      /\ StructOK(st) /\ LayoutOK(st, layout)
+                      /\ LET r == RenderLines(st, layout) IN lines = r.lines /\ sig = r.sig /\ expect = r.expect
                       /\ pcand = {"function"}
 Init ==
   /\ IF Mode = "seq" THEN InitSeq ELSE InitStruct
